@@ -110,17 +110,17 @@ pub proof fn lemma_any_var_step(q: Seq<Unifiable>, a: int, b: int)
 // TRUSTED(R10/R16): the three writing statements of next_solution_print_list keep their text in the ghost log
 #[verifier::external_body]
 pub fn verif_print_sep(Tracked(h): Tracked<&mut Heap>)                       // print!(",\n")
-    ensures final(h).st == old(h).st, final(h).locked == old(h).locked, final(h).out == old(h).out + 1,
+    ensures final(h).ids == old(h).ids, final(h).st == old(h).st, final(h).locked == old(h).locked, final(h).out == old(h).out + 1,
             final(h).log == old(h).log.push(",\n"@),
 { unimplemented!() }
 #[verifier::external_body]
 pub fn verif_println_string(s: &String, Tracked(h): Tracked<&mut Heap>)      // println!("{}", s)
-    ensures final(h).st == old(h).st, final(h).locked == old(h).locked, final(h).out == old(h).out + 1,
+    ensures final(h).ids == old(h).ids, final(h).st == old(h).st, final(h).locked == old(h).locked, final(h).out == old(h).out + 1,
             final(h).log == old(h).log.push(s@ + "\n"@),
 { unimplemented!() }
 #[verifier::external_body]
 pub fn verif_println_term(t: &Unifiable, Tracked(h): Tracked<&mut Heap>)     // println!("{}", term)
-    ensures final(h).st == old(h).st, final(h).locked == old(h).locked, final(h).out == old(h).out + 1,
+    ensures final(h).ids == old(h).ids, final(h).st == old(h).st, final(h).locked == old(h).locked, final(h).out == old(h).out + 1,
             final(h).log == old(h).log.push(disp(*t) + "\n"@),
 { unimplemented!() }
 // the text format_slist gives for a list (its elements resolved, separated by ", "): uninterpreted here
